@@ -256,9 +256,10 @@ func TestVerifC07Gen(t *testing.T) {
 		part := int32(rng.Intn(3))
 		hostile := rng.Intn(2) == 0
 		nb := 1 + rng.Intn(r.N(6, 12))
-		bulk := rng.Intn(4) == 0 // many unacknowledged batches in a row: segments with several batches and several index entries
+		bulk := rng.Intn(3) == 0 // many unacknowledged batches in a row under the default configuration: segments with several batches and several index entries
 		if bulk {
 			nb = 5 + rng.Intn(6)
+			e = envs[0]
 		}
 		if ci < c07NFixed {
 			nb, hostile, bulk = 1, false, false
